@@ -13,3 +13,11 @@ Goal True. idtac "@@OBL c18_raw_sinks". Abort.
 Lemma c18_login_input_escaped : existsb (fun r : string * string * string => String.eqb (fst (fst r)) "writeHTMLLoginPage" && String.eqb (snd (fst r)) "escaped") raw_html_sinks = true.
 Proof. vm_compute. reflexivity. Qed.
 Goal True. idtac "@@OBL c18_login_input_escaped". Abort.
+
+(* markup written by hand straight to the response (a sink html/template never sees) interpolates a
+   non-literal value only in the admin-port status page (the build version); a new such write must be
+   modelled (and escaped) before this obligation lets it through *)
+Lemma c18_direct_writes : forallb (fun r : string * string * string =>
+    negb (String.eqb (snd (fst r)) "with-args") || String.eqb (fst (fst r)) "ServeHTTP") direct_markup_writes = true.
+Proof. vm_compute. reflexivity. Qed.
+Goal True. idtac "@@OBL c18_direct_writes". Abort.
